@@ -66,7 +66,9 @@ func c19Pairs(c *fw.Ctx, n, maxTries int) []*c19Pair {
 		if haveRandom < wantRandom && i < maxTries*7 {
 			g = recgram.FromCFG(r, gram.RandCFG(r))
 		} else {
-			g = recgram.RandSkeleton(r, recgram.SkelOptions{})
+			// every other skeleton has the statement form ending in a nullable nonterminal (mostly with a state
+			// marker behind it and a look-alike sibling rule ending with a token: relevant for minimizeDFA)
+			g = recgram.RandSkeleton(r, recgram.SkelOptions{TrailingNull: i%2 == 0})
 		}
 		if g.ErrRules() == 0 {
 			c.Count("candidates_without_error_rules", 1)
